@@ -146,3 +146,4 @@ def run(rep, tier):
     for o in obs:
         rep.add(o)
     native.search_on_failure(rep, 'C17', obs)
+    verus.settle_lost_anchors(u, obs, rep)
